@@ -144,6 +144,40 @@ def gen_F(g: docops.Gen) -> Optional[dict]:
             if it is not None and not (isinstance(it.get('node'), dict) and 'pool' in it['node']):
                 faults.append({'op': 'seq', 'k': 'setslice', 't': ref, 'm': m.name, 'sl': [None, None, 2], 'items': [it] * 0 + [it] if n > 2 else [],
                                'fault': 'F4_size_mismatch'})
+    # F1z: a node that was deleted from a document earlier (its tokens live nowhere, its tree still names the
+    # old store); detach() refuses it, so every route must refuse it before modifying anything
+    zs = getattr(sess, 'zombies', [])
+    for zi, z in enumerate(zs):
+        try:
+            if z.first_token.store_handle is not None:
+                continue
+        except Exception:
+            continue
+        for ref, owner, m in ws[:8]:
+            dom, types = g.item_domain(owner, m)
+            if dom != 'node' or not isinstance(z, types):
+                continue
+            try:
+                n = len(sess.resolve(ref))
+            except Unresolvable:
+                continue
+            fresh = g.gen_item(owner, m)
+            if fresh is None or (isinstance(fresh.get('node'), dict) and 'pool' in fresh['node']):
+                continue
+            is_view = m.kind not in ('raw_repeated', 'raw_repeated_comments')
+            if n >= 2:
+                faults.append({'op': 'seq', 'k': 'setslice', 't': ref, 'm': m.name, 'sl': [0, 2, None],
+                               'items': [fresh, {'node': {'zombie': zi}}], 'fault': 'F1z_deleted_node'})
+            elif n >= 1 and not is_view:
+                faults.append({'op': 'seq', 'k': 'setslice', 't': ref, 'm': m.name, 'sl': [0, 1, None],
+                               'items': [fresh, {'node': {'zombie': zi}}], 'fault': 'F1z_deleted_node'})
+            faults.append({'op': 'seq', 'k': 'extend', 't': ref, 'm': m.name, 'items': [fresh, {'node': {'zombie': zi}}], 'fault': 'F1z_deleted_node'}
+                          if not is_view else {'op': 'seq', 'k': 'append', 't': ref, 'm': m.name, 'items': [{'node': {'zombie': zi}}], 'fault': 'F1z_deleted_node'})
+            break
+        if isinstance(z, models.NumberExpr):
+            for ref, node in [(r, n) for r, n in nodes if isinstance(n, models.CostSpec)][:2]:
+                faults.append({'op': 'set_raw', 't': ref, 'm': rng.choice(['raw_number_per', 'raw_number_total']),
+                               'v': {'zombie': zi}, 'fault': 'F1z_deleted_node'})
     # F3 + F1 on mappings
     ms = g.wrappers(False, {'raw_meta_view', 'meta_view'})
     rng.shuffle(ms)
